@@ -112,8 +112,9 @@ DExitDecide(w, atomic) ==   \* atomic: the worker leaves the cabinet in the same
 DWait(w) ==
   /\ w \notin idle /\ idle' = idle \cup {w}
   /\ UNCHANGED <<minT, maxT, ready, undo, doing, threads, stopFlag, exiting, collected, left, pendSpawn, lastQ>> /\ UNCH_GHOST
-DWoken(w, flag) ==        \* "tp.w.woken": the wait predicate held; flag = stop flag as read by the worker
-  /\ w \in idle /\ idle' = idle \ {w} /\ flag = stopFlag /\ (flag \/ Waiting # {})
+DWoken(w, flag) ==        \* "tp.w.woken": the wait returned; flag = stop flag as read by the worker (under the mutex). Why it returned
+                          \* is not constrained: a timed or spurious return with nothing to do is legal (the worker finds no task and loops)
+  /\ w \in idle /\ idle' = idle \ {w} /\ flag = stopFlag
   /\ UNCHANGED <<minT, maxT, ready, undo, doing, threads, stopFlag, exiting, collected, left, pendSpawn, lastQ>> /\ UNCH_GHOST
 (* ---- worker takes a task: "tp.w.pop" (and "tp.w.mark", in the same critical section in the intended design) ---- *)
 DPop(w, t, mark, open) ==   \* open: the critical section is still open afterwards (a "tp.w.unlocked" follows)
